@@ -27,6 +27,19 @@ def confirm(chk, ex, kind, case_of):
             if hit:
                 break
         if not hit:
+            # the same scenario may surface on the real kernels through a sibling obligation of the same property
+            pref = name.split(".")[0] + "."
+            for case, r in zip(cases, res):
+                if "error" in r or hit:
+                    continue
+                for run in r["runs"]:
+                    sib = [k for k in (run.get("violated") or {}) if k.startswith(pref)]
+                    if sib:
+                        hit = True
+                        chk.violation(sib[0].replace(".", ":"), "minimize_lbfgsb on %s, scenario %s: %s (solver obligation: %s)" % (
+                            run["problem"], {k: w for k, w in case.items() if k != "kind"}, run["violated"][sib[0]], name), dict(case=dict(case, kind=kind), real=run))
+                        break
+        if not hit:
             chk.unconfirm(dict(obligation=name, params=ex.params, model=cands[0]["model"], info=cands[0].get("info")))
     return res
 
